@@ -501,6 +501,9 @@ def run(tier, only_texts=None):
         hist[k] = hist.get(k, 0) + 1
         chk.count(("c08", t), nontrivial=len(t) > 2)
         oracle(chk, t, res, tag, stats)
+    if only_texts is None:
+        from . import layout
+        layout.run_text_sweep(chk, tier, stats)
     small = run_corpus(chk, tier) if only_texts is None else []
     ncorp = 0
     for cid, txt, res in small:
